@@ -217,8 +217,30 @@ func stableCallee(ctx astmatcher.Ctx, lit *ast.FuncLit) bool {
 			return false
 		}
 	}
+	// the callee must not depend on the parameters of the literal:
+	// func(x T) R { return x.m(x) } cannot become `x.m`
+	if mentionsParam(ctx, lit, call.Fun) {
+		return false
+	}
 	litTy, funTy := ctx.TypeOf(lit), ctx.TypeOf(call.Fun)
 	return litTy != nil && funTy != nil && types.Identical(litTy, funTy)
+}
+
+// whether expr refers to one of the parameters of lit
+func mentionsParam(ctx astmatcher.Ctx, lit *ast.FuncLit, expr ast.Expr) (found bool) {
+	params := map[types.Object]bool{}
+	for _, field := range lit.Type.Params.List {
+		for _, name := range field.Names {
+			params[ctx.ObjectOf(name)] = true
+		}
+	}
+	ast.Inspect(expr, func(n ast.Node) bool {
+		if id, ok := n.(*ast.Ident); ok && params[ctx.ObjectOf(id)] {
+			found = true
+		}
+		return !found
+	})
+	return
 }
 
 // fun(...args) { return return f(...args) }  ==>  f
